@@ -42,18 +42,38 @@
 (*   ld m  own.release();   la m  co_await own.release()   mutex.h:76-85   *)
 (*   qo    co_await q.pop()                          queue.h:197-211       *)
 (*   qd    q.push();        qa    co_await q.push()  queue.h:148-159       *)
+(*   po    co_await pool                     thread_pool.h:104-149,238     *)
+(*   pr k  pool.resume(prom[k]())            thread_pool.h:204-224         *)
+(*   pw k  co_await pool(fut[k])             thread_pool.h:151-196         *)
+(*   px    { future<void> f = pool.run(body(child)); co_await f; }  :288   *)
+(*         (a thread pool with ONE worker; the harness lets the worker run *)
+(*         only while the native thread waits, so the two threads never    *)
+(*         execute at the same time and the history stays sequential)      *)
+(*   ha k  acc = prom[k]();   hm k  acc << prom[k]();   hd  acc =          *)
+(*         body(child).detach();  hw  co_await acc;  hf  acc.clear();      *)
+(*         `acc` is a suspend_point<void> variable of the coroutine that   *)
+(*         is REUSED: operator= merges like << (suspend_point.h:92-93); it *)
+(*         is flushed by its destructor at co_return                       *)
 (*   re    co_return (held mutex ownership is released by its destructor,  *)
 (*         then final_awaiter, async.h:217-230)                            *)
-(* Steps of the native driver (coroutine mode off): sd, rd k, up, qd.      *)
+(* Steps of the native driver (coroutine mode off): sd, rd k, up, qd, pr k.*)
 (*                                                                         *)
-(* Events <<c, i, kind, q, inst>> (q = content of the ready deque as seen  *)
-(* at that moment, inst = 1 iff coroutine mode is on):                     *)
+(* Events <<c, i, kind, q, mode>> (q = content of the executing thread's   *)
+(* ready deque as seen at that moment, mode = (1 iff coroutine mode is on) *)
+(* + (2 iff executing on the pool's worker thread)):                       *)
 (*   b  coroutine c begins its i-th step                                   *)
 (*   s  c's co_await in step i calls await_suspend (c is suspended)        *)
 (*   e  c's co_await in step i has completed (await_resume)                *)
 (*   f  c's body has finished (locals destroyed; final_suspend follows)    *)
 (*   r  the nested start() called in step i has returned to c              *)
-(* for c = 0 (native): b before the library call, e after it returned.     *)
+(* for c = 0 (native): b before the library call, e after it returned (and *)
+(* after the pool has run dry), w = observation made ON the worker between *)
+(* pool tasks (its deque must be empty, coroutine mode off).               *)
+(*                                                                         *)
+(* Plan = "wide" replaces the free choice of steps by the fixed family     *)
+(* WideCases: long histories of one ready deque (a root detaches A         *)
+(* workers, the S-th of them detaches B more while the rest is still       *)
+(* queued; everybody else returns at once or pauses once).                 *)
 (***************************************************************************)
 EXTENDS Naturals, Sequences, FiniteSets, TLC
 
@@ -65,7 +85,8 @@ CONSTANTS N,         \* max number of coroutines ever created (ids 1..N in order
           NatSteps,  \* max number of freely chosen native steps
           Kinds,     \* step kinds coroutines may use
           NatKinds,  \* step kinds native code may use, subset of {"sd","rd","up","qd"}
-          Prune      \* TRUE: steps that are no-ops in the current state are not generated
+          Prune,     \* TRUE: steps that are no-ops in the current state are not generated
+          Plan       \* "free" | "wide"
 
 ASSUME M \in {0, 1}
 
@@ -91,10 +112,17 @@ VARIABLES script,   \* script[c]: steps chosen so far, c \in 0..N (0 = native dr
                     \*        suspend point (or coro_queue::resume) by a running coroutine
           enqs,     \* ghost: every coroutine ever pushed to the deque, in push order
           ndeq,     \* ghost: number of pop_front's
-          nrd, nrs  \* ghost: per coroutine number of readyings / resumptions
+          nrd, nrs, \* ghost: per coroutine number of readyings / resumptions
+          ptasks,   \* thread_pool::_queue: <<"h",c>> closure calling coro_queue::resume(h) | <<"run",c>> closure
+                    \* calling fn.start(promise) | <<"obs",0>> the harness' observation task
+          thr,      \* executing thread: 0 native thread, 1 the pool's worker
+          nat,      \* "idle" | "pool": the native thread waits until the pool has run dry
+          acc,      \* acc[c]: handles held by c's reused suspend_point variable (array order)
+          wcase     \* Plan = "wide": the chosen case <<A, S, B, P>>
 
 vars == <<script, pc, st, mid, bind, created, stack, inst, queue, fut, parked, mtx, qu, nph,
-          ev, disc, enqs, ndeq, nrd, nrs>>
+          ev, disc, enqs, ndeq, nrd, nrs, ptasks, thr, nat, acc, wcase>>
+ext == <<ptasks, thr, nat, acc, wcase>>
 
 Cor == 1..N
 All == 0..N
@@ -103,6 +131,13 @@ Frame(t, c, rest, prev) == [t |-> t, c |-> c, rest |-> rest, prev |-> prev]
 Top == stack[Len(stack)]
 Running == stack # <<>> /\ Top.t = "co"
 B(x) == IF x THEN 1 ELSE 0
+MD == B(inst) + 2 * thr      \* the "mode" field of an event
+PoolKinds == {"po", "pr", "pw", "px"}
+PoolOn == (Kinds \cap PoolKinds # {}) \/ ("pr" \in NatKinds)
+Obs == <<"obs", 0>>
+(* Family of long deque histories: <<A, S, B, P>> = the root detaches A workers and returns; worker
+   number S detaches B children; every other coroutine pauses once first (P = 1) or returns at once *)
+WideCases == {<<10, 4, 12, 0>>, <<10, 4, 12, 1>>, <<6, 2, 30, 0>>, <<14, 9, 20, 1>>, <<18, 17, 18, 0>>, <<3, 3, 40, 1>>}
 Last(s) == s[Len(s)]
 Front(s) == SubSeq(s, 1, Len(s) - 1)
 In(x, H) == \E j \in 1..Len(H) : H[j] = x
@@ -125,6 +160,9 @@ Init == /\ script = [c \in All |-> <<>>]
         /\ nph = "run"
         /\ ev = <<>> /\ disc = <<>> /\ enqs = <<>> /\ ndeq = 0
         /\ nrd = [c \in Cor |-> 0] /\ nrs = [c \in Cor |-> 0]
+        /\ ptasks = <<>> /\ thr = 0 /\ nat = "idle"
+        /\ acc = [c \in Cor |-> <<>>]
+        /\ wcase \in (IF Plan = "wide" THEN WideCases ELSE {<<0, 0, 0, 0>>})
 
 -----------------------------------------------------------------------------
 (* Transfer of control.  S, P, Mi, E, Q are the values of st, pc, mid, ev, queue after the effects
@@ -149,35 +187,38 @@ Back(S, P, Mi, E, Q) ==
 Cont(c, hasAwait, S, E, Q) ==
     /\ stack' = stack /\ st' = S /\ mid' = mid /\ queue' = Q /\ nrs' = nrs
     /\ pc' = [pc EXCEPT ![c] = @ + 1]
-    /\ ev' = IF hasAwait THEN Append(E, <<c, pc[c] + 1, "e", Q, B(inst)>>) ELSE E
+    /\ ev' = IF hasAwait THEN Append(E, <<c, pc[c] + 1, "e", Q, MD>>) ELSE E
 
-EvB(c) == Append(ev, <<c, pc[c] + 1, "b", queue, B(inst)>>)
-EvS(E, c) == Append(E, <<c, pc[c] + 1, "s", queue, B(inst)>>)
+EvB(c) == Append(ev, <<c, pc[c] + 1, "b", queue, MD>>)
+EvS(E, c) == Append(E, <<c, pc[c] + 1, "s", queue, MD>>)
 
 (* A suspend_point holding handles H (array order) is DISCARDED by running coroutine c:
    ~suspend_point -> suspend_now, coroutine mode on -> push all in array order
    (suspend_point.h:97-99,130-135).  coro_queue::resume(h) in coroutine mode is the same with one
    handle (coro_queue.h:132-134).  S0 = st with the caller's other changes. *)
-DiscardSP(c, H, S0) ==
+DiscardSPx(c, H, S0, NB) ==      \* NB: the coroutines whose readying is counted by this action
     LET E0 == EvB(c) IN
     /\ Cont(c, FALSE, Ready(S0, H), E0, queue \o H)
-    /\ enqs' = enqs \o H /\ ndeq' = ndeq /\ nrd' = Bump(nrd, H)
+    /\ enqs' = enqs \o H /\ ndeq' = ndeq /\ nrd' = Bump(nrd, NB)
     /\ disc' = disc \o [j \in 1..Len(H) |-> <<c, H[j], Len(E0)>>]
+DiscardSP(c, H, S0) == DiscardSPx(c, H, S0, H)
 
 (* The suspend point is co_awaited by running coroutine c (suspend_point.h:148-183): empty ->
    await_ready, no suspension; otherwise pop the LAST handle for symmetric transfer, push the
    remaining handles in array order, push c itself (c cannot be among H: it is running). *)
-AwaitSP(c, H, S0) ==
+AwaitSPx(c, H, S0, NB) ==
     LET E0 == EvB(c) IN
     IF H = <<>>
       THEN /\ Cont(c, TRUE, S0, E0, queue)
-           /\ UNCHANGED <<enqs, ndeq, nrd, disc>>
+           /\ nrd' = Bump(nrd, NB)
+           /\ UNCHANGED <<enqs, ndeq, disc>>
       ELSE LET out == Last(H)
                P == Front(H) \o <<c>>
            IN /\ Resume(out, SwapTop(out), Ready(S0, H \o <<c>>), pc, [mid EXCEPT ![c] = TRUE],
-                        EvS(E0, c), queue \o P, B(inst))
-              /\ enqs' = enqs \o P /\ ndeq' = ndeq /\ nrd' = Bump(nrd, H \o <<c>>)
+                        EvS(E0, c), queue \o P, MD)
+              /\ enqs' = enqs \o P /\ ndeq' = ndeq /\ nrd' = Bump(nrd, NB \o <<c>>)
               /\ disc' = disc
+AwaitSP(c, H, S0) == AwaitSPx(c, H, S0, H)
 
 (* c suspends and is subscribed somewhere; control returns to the resumer *)
 Suspend(c) ==
@@ -192,15 +233,22 @@ NoSuspend(c) ==
 -----------------------------------------------------------------------------
 (* Which steps may be chosen *)
 
-FutKinds == {"rd", "ra", "aw", "bd", "ba"}
+FutKinds == {"rd", "ra", "aw", "bd", "ba", "pr", "pw", "ha", "hm"}
 UsedF == UNION {{script[x][j][2] : j \in {j \in 1..Len(script[x]) : script[x][j][1] \in FutKinds}} : x \in All}
 (* futures are named in order of first use (symmetry reduction) *)
 AllowedF == {k \in 1..K : \A k2 \in 1..(k - 1) : k2 \in UsedF}
 KS(kind, ks) == IF kind \in Kinds THEN {<<kind, k>> : k \in ks} ELSE {}
 K0(kind, cond) == IF kind \in Kinds /\ cond THEN {<<kind, 0>>} ELSE {}
 
+WideChoice(c) ==
+    LET i == Len(script[c]) + 1 IN
+    IF c = 1 THEN (IF i <= wcase[1] THEN <<"sd", 0>> ELSE <<"re", 0>>)
+    ELSE IF c = wcase[2] + 1 THEN (IF i <= wcase[3] THEN <<"sd", 0>> ELSE <<"re", 0>>)
+    ELSE IF wcase[4] = 1 /\ i = 1 THEN <<"pa", 0>> ELSE <<"re", 0>>
+
 Choices(c) ==
-    IF Len(script[c]) >= MaxSteps THEN {<<"re", 0>>}
+    IF Plan = "wide" THEN {WideChoice(c)}
+    ELSE IF Len(script[c]) >= MaxSteps THEN {<<"re", 0>>}
     ELSE {<<"re", 0>>}
       \cup K0("pa", TRUE)
       \cup KS("rd", {k \in AllowedF : Prune => fut[k].s = "pend"})
@@ -220,6 +268,14 @@ Choices(c) ==
       \cup KS("la", {m \in 1..M : mtx[m].own = c})
       \cup K0("qo", TRUE)
       \cup K0("qd", TRUE) \cup K0("qa", TRUE)
+      \cup K0("po", TRUE) \cup K0("px", created < N)
+      \cup KS("pr", {k \in AllowedF : Prune => fut[k].s = "pend"})
+      \cup KS("pw", {k \in AllowedF : /\ Prune => fut[k].s # "done"
+                                      /\ fut[k].s = "bound" => bind[c][1] = "n"})
+      \cup KS("ha", {k \in AllowedF : Prune => fut[k].s = "pend"})
+      \cup KS("hm", {k \in AllowedF : Prune => fut[k].s = "pend"})
+      \cup K0("hd", created < N)
+      \cup K0("hw", Prune => acc[c] # <<>>) \cup K0("hf", Prune => acc[c] # <<>>)
 
 Can(c, s) == /\ Running /\ Top.c = c /\ st[c] = "run"
              /\ s \in Choices(c)
@@ -228,7 +284,19 @@ Pick(c, s) == script' = [script EXCEPT ![c] = Append(@, s)]
 
 (* handles released by calling promise k: the awaiter chain is a stack, resume_chain_lk walks it from
    the head, so the array order is latest subscriber first (awaiter.h:102-111) *)
-PromH(k) == IF fut[k].s = "pend" THEN fut[k].w ELSE <<>>
+(* a waiter x >= 100 is coroutine x - 100 waiting through `co_await pool(fut)`: its awaiter's resume
+   function hands the coroutine to the pool DURING the chain walk and contributes nothing to the
+   returned suspend point (thread_pool.h:163-167) *)
+Plain(w) == SelectSeq(w, LAMBDA x : x < 100)
+ViaPool(w) == SelectSeq(w, LAMBDA x : x >= 100)
+PWIds(w) == [j \in 1..Len(ViaPool(w)) |-> ViaPool(w)[j] - 100]
+PWTasks(w) == [j \in 1..Len(ViaPool(w)) |-> <<"h", ViaPool(w)[j] - 100>>]
+Rev(H) == [j \in 1..Len(H) |-> H[Len(H) + 1 - j]]
+HTasks(H) == [j \in 1..Len(H) |-> <<"h", H[j]>>]
+PromW(k) == IF fut[k].s = "pend" THEN fut[k].w ELSE <<>>
+PromH(k) == Plain(PromW(k))
+PromX(k) == PWIds(PromW(k))
+PromPT(k) == PWTasks(PromW(k))
 PromFut(k) == IF fut[k].s = "pend" THEN [fut EXCEPT ![k] = [s |-> "done", w |-> <<>>]] ELSE fut
 
 -----------------------------------------------------------------------------
@@ -240,21 +308,24 @@ Pause(c) ==
     /\ LET Q0 == Append(queue, c)
            t == Head(Q0)
        IN Resume(t, SwapTop(t), [st EXCEPT ![c] = "ready"], pc, [mid EXCEPT ![c] = TRUE],
-                 EvS(EvB(c), c), Tail(Q0), B(inst))
+                 EvS(EvB(c), c), Tail(Q0), MD)
     /\ enqs' = Append(enqs, c) /\ ndeq' = ndeq + 1 /\ nrd' = Bump(nrd, <<c>>)
     /\ UNCHANGED <<bind, created, inst, fut, parked, mtx, qu, nph, disc>>
+    /\ UNCHANGED ext
 
 ResolveDiscard(c, k) ==
     /\ Can(c, <<"rd", k>>) /\ Pick(c, <<"rd", k>>)
-    /\ DiscardSP(c, PromH(k), st)
+    /\ DiscardSPx(c, PromH(k), Ready(st, PromX(k)), PromH(k) \o PromX(k))
     /\ fut' = PromFut(k)
-    /\ UNCHANGED <<bind, created, inst, parked, mtx, qu, nph>>
+    /\ ptasks' = ptasks \o PromPT(k)
+    /\ UNCHANGED <<bind, created, inst, parked, mtx, qu, nph, thr, nat, acc, wcase>>
 
 ResolveAwait(c, k) ==
     /\ Can(c, <<"ra", k>>) /\ Pick(c, <<"ra", k>>)
-    /\ AwaitSP(c, PromH(k), st)
+    /\ AwaitSPx(c, PromH(k), Ready(st, PromX(k)), PromH(k) \o PromX(k))
     /\ fut' = PromFut(k)
-    /\ UNCHANGED <<bind, created, inst, parked, mtx, qu, nph>>
+    /\ ptasks' = ptasks \o PromPT(k)
+    /\ UNCHANGED <<bind, created, inst, parked, mtx, qu, nph, thr, nat, acc, wcase>>
 
 (* co_await future: ready -> continue; else subscribe (push on the awaiter stack) and return to the
    resumer (co_awaiter::await_suspend returns true, awaiter.h:183-186) *)
@@ -264,6 +335,7 @@ AwaitFuture(c, k) ==
          THEN NoSuspend(c) /\ fut' = fut
          ELSE Suspend(c) /\ fut' = [fut EXCEPT ![k].w = <<c>> \o @]
     /\ UNCHANGED <<bind, created, inst, parked, mtx, qu, nph>>
+    /\ UNCHANGED ext
 
 Child == created + 1
 
@@ -272,23 +344,26 @@ SpawnDetachDiscard(c) ==
     /\ DiscardSP(c, <<Child>>, st)
     /\ created' = Child
     /\ UNCHANGED <<bind, inst, fut, parked, mtx, qu, nph>>
+    /\ UNCHANGED ext
 
 SpawnDetachAwait(c) ==
     /\ Can(c, <<"sa", 0>>) /\ Pick(c, <<"sa", 0>>)
     /\ AwaitSP(c, <<Child>>, st)
     /\ created' = Child
     /\ UNCHANGED <<bind, inst, fut, parked, mtx, qu, nph>>
+    /\ UNCHANGED ext
 
 (* co_await async: co_awaiter::await_suspend binds the child's completion to the awaiting
    coroutine and returns the child's handle; the parent is NOT queued (async.h:104-111) *)
 SpawnCoAwait(c) ==
     /\ Can(c, <<"sc", 0>>) /\ Pick(c, <<"sc", 0>>)
     /\ Resume(Child, SwapTop(Child), [st EXCEPT ![c] = "wait", ![Child] = "ready"], pc,
-              [mid EXCEPT ![c] = TRUE], EvS(EvB(c), c), queue, B(inst))
+              [mid EXCEPT ![c] = TRUE], EvS(EvB(c), c), queue, MD)
     /\ bind' = [bind EXCEPT ![Child] = <<"p", c>>]
     /\ created' = Child
     /\ nrd' = Bump(nrd, <<Child>>)
     /\ UNCHANGED <<inst, fut, parked, mtx, qu, nph, enqs, ndeq, disc>>
+    /\ UNCHANGED ext
 
 (* future<void> f = body(child).start(): coroutine mode is on, so start() calls h.resume() directly
    (async.h:55-57): the child runs NESTED on top of the caller's activation until control comes back
@@ -296,17 +371,18 @@ SpawnCoAwait(c) ==
 StartNested(c) ==
     /\ Can(c, <<"st", 0>>) /\ Pick(c, <<"st", 0>>)
     /\ Resume(Child, Append(stack, Frame("co", Child, <<>>, FALSE)),
-              [st EXCEPT ![c] = "call", ![Child] = "ready"], pc, mid, EvB(c), queue, B(inst))
+              [st EXCEPT ![c] = "call", ![Child] = "ready"], pc, mid, EvB(c), queue, MD)
     /\ bind' = [bind EXCEPT ![Child] = <<"s", c>>]
     /\ created' = Child
     /\ nrd' = Bump(nrd, <<Child>>)
     /\ UNCHANGED <<inst, fut, parked, mtx, qu, nph, enqs, ndeq, disc>>
+    /\ UNCHANGED ext
 
 (* the nested resume() has returned: start() returns the future, then `co_await f` *)
 Started(c) == CHOOSE x \in Cor : bind[x] = <<"s", c>>
 StartReturn(c) ==
     /\ Running /\ Top.c = c /\ st[c] = "call"
-    /\ LET E0 == Append(ev, <<c, pc[c] + 1, "r", queue, B(inst)>>)
+    /\ LET E0 == Append(ev, <<c, pc[c] + 1, "r", queue, MD>>)
            x == Started(c)
        IN IF st[x] = "done"
             THEN /\ Cont(c, TRUE, [st EXCEPT ![c] = "run"], E0, queue)
@@ -314,6 +390,7 @@ StartReturn(c) ==
             ELSE /\ Back([st EXCEPT ![c] = "wait"], pc, [mid EXCEPT ![c] = TRUE], EvS(E0, c), queue)
                  /\ bind' = [bind EXCEPT ![x] = <<"p", c>>]
     /\ UNCHANGED <<script, created, inst, fut, parked, mtx, qu, nph, enqs, ndeq, nrd, disc>>
+    /\ UNCHANGED ext
 
 (* async::start(promise&): the child claims promise k; suspend_point<bool>{h, true} (async.h:70-74) *)
 SpawnBoundDiscard(c, k) ==
@@ -323,6 +400,7 @@ SpawnBoundDiscard(c, k) ==
     /\ bind' = [bind EXCEPT ![Child] = <<"f", k>>]
     /\ fut' = [fut EXCEPT ![k].s = "bound"]
     /\ UNCHANGED <<inst, parked, mtx, qu, nph>>
+    /\ UNCHANGED ext
 
 SpawnBoundAwait(c, k) ==
     /\ Can(c, <<"ba", k>>) /\ Pick(c, <<"ba", k>>)
@@ -331,12 +409,14 @@ SpawnBoundAwait(c, k) ==
     /\ bind' = [bind EXCEPT ![Child] = <<"f", k>>]
     /\ fut' = [fut EXCEPT ![k].s = "bound"]
     /\ UNCHANGED <<inst, parked, mtx, qu, nph>>
+    /\ UNCHANGED ext
 
 Park(c) ==
     /\ Can(c, <<"pk", 0>>) /\ Pick(c, <<"pk", 0>>)
     /\ Suspend(c)
     /\ parked' = Append(parked, c)
     /\ UNCHANGED <<bind, created, inst, fut, mtx, qu, nph>>
+    /\ UNCHANGED ext
 
 (* coro_queue::resume(h) while in coroutine mode: enqueue (coro_queue.h:132-134) *)
 Unpark(c) ==
@@ -344,6 +424,7 @@ Unpark(c) ==
     /\ DiscardSP(c, IF parked = <<>> THEN <<>> ELSE <<Head(parked)>>, st)
     /\ parked' = IF parked = <<>> THEN <<>> ELSE Tail(parked)
     /\ UNCHANGED <<bind, created, inst, fut, mtx, qu, nph>>
+    /\ UNCHANGED ext
 
 (* co_await mx.lock(): await_ready = try_lock; otherwise the request is appended and the coroutine
    stays suspended (mutex.h:180-207); hand-off is FIFO (mutex.h:149-177) *)
@@ -353,6 +434,7 @@ Lock(c, m) ==
          THEN NoSuspend(c) /\ mtx' = [mtx EXCEPT ![m].own = c]
          ELSE Suspend(c) /\ mtx' = [mtx EXCEPT ![m].w = Append(@, c)]
     /\ UNCHANGED <<bind, created, inst, fut, parked, qu, nph>>
+    /\ UNCHANGED ext
 
 MtxH(c, m) == IF mtx[m].own = c /\ mtx[m].w # <<>> THEN <<Head(mtx[m].w)>> ELSE <<>>
 MtxRel(c, m) == IF mtx[m].own # c THEN mtx
@@ -364,12 +446,14 @@ ReleaseDiscard(c, m) ==
     /\ DiscardSP(c, MtxH(c, m), st)
     /\ mtx' = MtxRel(c, m)
     /\ UNCHANGED <<bind, created, inst, fut, parked, qu, nph>>
+    /\ UNCHANGED ext
 
 ReleaseAwait(c, m) ==
     /\ Can(c, <<"la", m>>) /\ Pick(c, <<"la", m>>)
     /\ AwaitSP(c, MtxH(c, m), st)
     /\ mtx' = MtxRel(c, m)
     /\ UNCHANGED <<bind, created, inst, fut, parked, qu, nph>>
+    /\ UNCHANGED ext
 
 (* co_await q.pop(): item available -> the future is born resolved; else the promise is parked *)
 QPop(c) ==
@@ -378,6 +462,7 @@ QPop(c) ==
          THEN NoSuspend(c) /\ qu' = [qu EXCEPT !.n = @ - 1]
          ELSE Suspend(c) /\ qu' = [qu EXCEPT !.w = Append(@, c)]
     /\ UNCHANGED <<bind, created, inst, fut, parked, mtx, nph>>
+    /\ UNCHANGED ext
 
 QH == IF qu.w = <<>> THEN <<>> ELSE <<Head(qu.w)>>
 QPushed == IF qu.w = <<>> THEN [qu EXCEPT !.n = @ + 1] ELSE [qu EXCEPT !.w = Tail(@)]
@@ -387,12 +472,88 @@ QPushDiscard(c) ==
     /\ DiscardSP(c, QH, st)
     /\ qu' = QPushed
     /\ UNCHANGED <<bind, created, inst, fut, parked, mtx, nph>>
+    /\ UNCHANGED ext
 
 QPushAwait(c) ==
     /\ Can(c, <<"qa", 0>>) /\ Pick(c, <<"qa", 0>>)
     /\ AwaitSP(c, QH, st)
     /\ qu' = QPushed
     /\ UNCHANGED <<bind, created, inst, fut, parked, mtx, nph>>
+    /\ UNCHANGED ext
+
+(* co_await pool: the awaiter hands a closure calling coro_queue::resume(h) to the pool and the
+   coroutine stays suspended (thread_pool.h:113-137) *)
+PoolHop(c) ==
+    /\ Can(c, <<"po", 0>>) /\ Pick(c, <<"po", 0>>)
+    /\ Back([st EXCEPT ![c] = "ready"], pc, [mid EXCEPT ![c] = TRUE], EvS(EvB(c), c), queue)
+    /\ ptasks' = Append(ptasks, <<"h", c>>)
+    /\ nrd' = Bump(nrd, <<c>>)
+    /\ UNCHANGED <<bind, created, inst, fut, parked, mtx, qu, nph, enqs, ndeq, disc, thr, nat, acc, wcase>>
+
+(* pool.resume(prom[k]()) by a running coroutine: the waiters go to the pool, LAST handle first *)
+PoolResume(c, k) ==
+    /\ Can(c, <<"pr", k>>) /\ Pick(c, <<"pr", k>>)
+    /\ Cont(c, FALSE, Ready(st, PromH(k) \o PromX(k)), EvB(c), queue)
+    /\ ptasks' = ptasks \o PromPT(k) \o HTasks(Rev(PromH(k)))
+    /\ nrd' = Bump(nrd, PromH(k) \o PromX(k))
+    /\ fut' = PromFut(k)
+    /\ UNCHANGED <<bind, created, inst, parked, mtx, qu, nph, enqs, ndeq, disc, thr, nat, acc, wcase>>
+
+(* co_await pool(fut[k]): ready -> continue here; else subscribe with a resume FUNCTION that hands the
+   coroutine to the pool when the future is resolved (thread_pool.h:151-170) *)
+PoolAwait(c, k) ==
+    /\ Can(c, <<"pw", k>>) /\ Pick(c, <<"pw", k>>)
+    /\ IF fut[k].s = "done"
+         THEN NoSuspend(c) /\ fut' = fut
+         ELSE Suspend(c) /\ fut' = [fut EXCEPT ![k].w = <<c + 100>> \o @]
+    /\ UNCHANGED <<bind, created, inst, parked, mtx, qu, nph>>
+    /\ UNCHANGED ext
+
+(* { future<void> f = pool.run(body(child)); co_await f; }: the closure owning the child goes to the
+   pool (thread_pool.h:288-298); the future cannot be ready yet, the caller waits for the child *)
+PoolRun(c) ==
+    /\ Can(c, <<"px", 0>>) /\ Pick(c, <<"px", 0>>)
+    /\ Back([st EXCEPT ![c] = "wait", ![Child] = "ready"], pc, [mid EXCEPT ![c] = TRUE], EvS(EvB(c), c), queue)
+    /\ ptasks' = Append(ptasks, <<"run", Child>>)
+    /\ bind' = [bind EXCEPT ![Child] = <<"p", c>>]
+    /\ created' = Child
+    /\ nrd' = Bump(nrd, <<Child>>)
+    /\ UNCHANGED <<inst, fut, parked, mtx, qu, nph, enqs, ndeq, disc, thr, nat, acc, wcase>>
+
+(* acc = prom[k]() / acc << prom[k](): the released coroutines are KEPT in the reused suspend point
+   variable, appended in array order; operator= is documented and implemented as a merge
+   (suspend_point.h:65-79,92-93) *)
+HoldProm(c, kind, k) ==
+    /\ Can(c, <<kind, k>>) /\ Pick(c, <<kind, k>>)
+    /\ Cont(c, FALSE, Ready(st, PromH(k) \o PromX(k)), EvB(c), queue)
+    /\ acc' = [acc EXCEPT ![c] = @ \o PromH(k)]
+    /\ nrd' = Bump(nrd, PromH(k) \o PromX(k))
+    /\ fut' = PromFut(k)
+    /\ ptasks' = ptasks \o PromPT(k)
+    /\ UNCHANGED <<bind, created, inst, parked, mtx, qu, nph, enqs, ndeq, disc, thr, nat, wcase>>
+
+(* acc = body(child).detach() *)
+HoldDetach(c) ==
+    /\ Can(c, <<"hd", 0>>) /\ Pick(c, <<"hd", 0>>)
+    /\ Cont(c, FALSE, [st EXCEPT ![Child] = "ready"], EvB(c), queue)
+    /\ acc' = [acc EXCEPT ![c] = Append(@, Child)]
+    /\ created' = Child
+    /\ nrd' = Bump(nrd, <<Child>>)
+    /\ UNCHANGED <<bind, inst, fut, parked, mtx, qu, nph, enqs, ndeq, disc, ptasks, thr, nat, wcase>>
+
+(* co_await acc *)
+HoldAwait(c) ==
+    /\ Can(c, <<"hw", 0>>) /\ Pick(c, <<"hw", 0>>)
+    /\ AwaitSPx(c, acc[c], st, <<>>)
+    /\ acc' = [acc EXCEPT ![c] = <<>>]
+    /\ UNCHANGED <<bind, created, inst, fut, parked, mtx, qu, nph, ptasks, thr, nat, wcase>>
+
+(* acc.clear(): suspend_now, coroutine mode on -> everything held is pushed *)
+HoldFlush(c) ==
+    /\ Can(c, <<"hf", 0>>) /\ Pick(c, <<"hf", 0>>)
+    /\ DiscardSPx(c, acc[c], st, <<>>)
+    /\ acc' = [acc EXCEPT ![c] = <<>>]
+    /\ UNCHANGED <<bind, created, inst, fut, parked, mtx, qu, nph, ptasks, thr, nat, wcase>>
 
 (* co_return: locals are destroyed (a held ownership releases the mutex, the next owner's suspend
    point is discarded: mutex.h:40-42), then final_awaiter::await_suspend (async.h:217-230): resolve
@@ -401,23 +562,27 @@ QPushAwait(c) ==
 Return(c) ==
     /\ Can(c, <<"re", 0>>) /\ Pick(c, <<"re", 0>>)
     /\ LET E0 == EvB(c)
+           H0 == acc[c]                                   \* ~suspend_point of the reused variable: pushed
            H1 == IF M = 1 THEN MtxH(c, 1) ELSE <<>>
-           Q1 == queue \o H1
-           E1 == Append(E0, <<c, pc[c] + 1, "f", Q1, B(inst)>>)
-           H == IF bind[c][1] = "f" THEN fut[bind[c][2]].w
+           Q1 == queue \o H0 \o H1
+           E1 == Append(E0, <<c, pc[c] + 1, "f", Q1, MD>>)
+           W == IF bind[c][1] = "f" THEN fut[bind[c][2]].w ELSE <<>>
+           H == IF bind[c][1] = "f" THEN Plain(W)
                 ELSE IF bind[c][1] = "p" THEN <<bind[c][2]>> ELSE <<>>
-           S1 == [Ready(st, H1 \o H) EXCEPT ![c] = "done"]
+           S1 == [Ready(st, H1 \o H \o PWIds(W)) EXCEPT ![c] = "done"]
            P1 == [pc EXCEPT ![c] = @ + 1]
        IN /\ IF H = <<>>
                THEN /\ Back(S1, P1, mid, E1, Q1)
-                    /\ enqs' = enqs \o H1
-               ELSE /\ Resume(Last(H), SwapTop(Last(H)), S1, P1, mid, E1, Q1 \o Front(H), B(inst))
-                    /\ enqs' = enqs \o H1 \o Front(H)
-          /\ nrd' = Bump(nrd, H1 \o H)
-          /\ disc' = disc \o [j \in 1..Len(H1) |-> <<c, H1[j], Len(E0)>>]
+                    /\ enqs' = enqs \o H0 \o H1
+               ELSE /\ Resume(Last(H), SwapTop(Last(H)), S1, P1, mid, E1, Q1 \o Front(H), MD)
+                    /\ enqs' = enqs \o H0 \o H1 \o Front(H)
+          /\ nrd' = Bump(nrd, H1 \o H \o PWIds(W))
+          /\ disc' = disc \o [j \in 1..Len(H0 \o H1) |-> <<c, (H0 \o H1)[j], Len(E0)>>]
           /\ fut' = IF bind[c][1] = "f" THEN [fut EXCEPT ![bind[c][2]] = [s |-> "done", w |-> <<>>]] ELSE fut
+          /\ ptasks' = ptasks \o PWTasks(W)
     /\ mtx' = IF M = 1 THEN MtxRel(c, 1) ELSE mtx
-    /\ UNCHANGED <<bind, created, inst, parked, qu, nph, ndeq>>
+    /\ acc' = [acc EXCEPT ![c] = <<>>]
+    /\ UNCHANGED <<bind, created, inst, parked, qu, nph, ndeq, thr, nat, wcase>>
 
 -----------------------------------------------------------------------------
 (* install_queue_and_call frame on top of the stack (coro_queue.h:103-111; the callee is
@@ -428,27 +593,35 @@ IqNext ==
     /\ stack # <<>> /\ Top.t = "iq" /\ Top.rest # <<>>
     /\ LET t == Head(Top.rest)
        IN Resume(t, Append([stack EXCEPT ![Len(stack)].rest = Tail(@)], Frame("co", t, <<>>, FALSE)),
-                 st, pc, mid, ev, queue, B(inst))
+                 st, pc, mid, ev, queue, MD)
     /\ UNCHANGED <<script, bind, created, inst, fut, parked, mtx, qu, nph, disc, enqs, ndeq, nrd>>
+    /\ UNCHANGED ext
 
 (* trailer: flush_queue takes the FRONT of the deque and resumes it (coro_queue.h:63-70) *)
 Flush ==
     /\ stack # <<>> /\ Top.t = "iq" /\ Top.rest = <<>> /\ queue # <<>>
     /\ LET t == Head(queue)
-       IN Resume(t, Append(stack, Frame("co", t, <<>>, FALSE)), st, pc, mid, ev, Tail(queue), B(inst))
+       IN Resume(t, Append(stack, Frame("co", t, <<>>, FALSE)), st, pc, mid, ev, Tail(queue), MD)
     /\ ndeq' = ndeq + 1
     /\ UNCHANGED <<script, bind, created, inst, fut, parked, mtx, qu, nph, disc, enqs, nrd>>
+    /\ UNCHANGED ext
 
 (* trailer: deque empty -> instance = prev, return to the caller (coro_queue.h:107) *)
 IqExit ==
     /\ stack # <<>> /\ Top.t = "iq" /\ Top.rest = <<>> /\ queue = <<>>
     /\ inst' = Top.prev
     /\ stack' = Pop
-    /\ IF Len(stack) = 1
+    /\ IF Len(stack) = 1 /\ thr = 0 /\ ~PoolOn
          THEN /\ ev' = Append(ev, <<0, pc[0] + 1, "e", queue, B(Top.prev)>>)
               /\ pc' = [pc EXCEPT ![0] = @ + 1]
-         ELSE UNCHANGED <<ev, pc>>
-    /\ UNCHANGED <<script, st, mid, bind, created, queue, fut, parked, mtx, qu, nph, disc, enqs, ndeq, nrd, nrs>>
+              /\ UNCHANGED <<nat, ptasks>>
+         ELSE IF Len(stack) = 1 /\ thr = 0
+         \* the native thread now lets the pool's worker run and waits until the pool is dry
+         THEN /\ nat' = "pool" /\ ptasks' = Append(ptasks, Obs)
+              /\ UNCHANGED <<ev, pc>>
+         ELSE UNCHANGED <<ev, pc, nat, ptasks>>     \* nested, or back in the worker's loop
+    /\ UNCHANGED <<script, st, mid, bind, created, queue, fut, parked, mtx, qu, nph, disc, enqs, ndeq, nrd, nrs,
+                   thr, acc, wcase>>
 
 -----------------------------------------------------------------------------
 (* Native code (coroutine mode off).  A discarded suspend point / coro_queue::resume runs the
@@ -476,63 +649,118 @@ NatChoices ==
               ELSE {})
       \cup (IF "up" \in NatKinds /\ (Prune => parked # <<>>) THEN {<<"up", 0>>} ELSE {})
       \cup (IF "qd" \in NatKinds /\ (Prune => qu.w # <<>>) THEN {<<"qd", 0>>} ELSE {})
+      \cup (IF "pr" \in NatKinds
+              THEN {<<"pr", k>> : k \in {k \in AllowedF : Prune => (fut[k].s = "pend" /\ fut[k].w # <<>>)}}
+              ELSE {})
 
-NatDo(s, H) ==
-    /\ stack = <<>> /\ s \in NatChoices
+NatIdle == stack = <<>> /\ nat = "idle"
+
+(* H: handles resumed by the call on the native thread; PT / X: closures the call hands to the pool
+   and the coroutines in them *)
+NatDo(s, H, PT, X) ==
+    /\ NatIdle /\ s \in NatChoices
     /\ script' = [script EXCEPT ![0] = Append(@, s)]
-    /\ LET E0 == Append(ev, <<0, pc[0] + 1, "b", queue, B(inst)>>)
+    /\ LET E0 == Append(ev, <<0, pc[0] + 1, "b", queue, MD>>)
        IN IF H = <<>>
-            THEN /\ ev' = Append(E0, <<0, pc[0] + 1, "e", queue, B(inst)>>)
-                 /\ pc' = [pc EXCEPT ![0] = @ + 1]
-                 /\ UNCHANGED <<st, mid, stack, inst, queue, nrd, nrs>>
+            THEN /\ IF PoolOn
+                      THEN /\ ev' = E0 /\ pc' = pc /\ nat' = "pool" /\ ptasks' = ptasks \o PT \o <<Obs>>
+                      ELSE /\ ev' = Append(E0, <<0, pc[0] + 1, "e", queue, MD>>)
+                           /\ pc' = [pc EXCEPT ![0] = @ + 1]
+                           /\ nat' = nat /\ ptasks' = ptasks \o PT
+                 /\ st' = Ready(st, X) /\ nrd' = Bump(nrd, X)
+                 /\ UNCHANGED <<mid, stack, inst, queue, nrs>>
             ELSE /\ inst' = TRUE
                  /\ Resume(Head(H), <<Frame("iq", 0, Tail(H), inst), Frame("co", Head(H), <<>>, FALSE)>>,
-                           Ready(st, H), pc, mid, E0, queue, 1)
-                 /\ nrd' = Bump(nrd, H)
-    /\ UNCHANGED <<bind, nph, disc, enqs, ndeq>>
+                           Ready(st, H \o X), pc, mid, E0, queue, 1)
+                 /\ nrd' = Bump(nrd, H \o X)
+                 /\ nat' = nat /\ ptasks' = ptasks \o PT
+    /\ UNCHANGED <<bind, nph, disc, enqs, ndeq, thr, acc, wcase>>
 
 NatSpawn ==
-    /\ NatDo(<<"sd", 0>>, <<Child>>)
+    /\ NatDo(<<"sd", 0>>, <<Child>>, <<>>, <<>>)
     /\ created' = Child
     /\ UNCHANGED <<fut, parked, mtx, qu>>
 
 NatResolve(k) ==
-    /\ NatDo(<<"rd", k>>, PromH(k))
+    /\ NatDo(<<"rd", k>>, PromH(k), PromPT(k), PromX(k))
+    /\ fut' = PromFut(k)
+    /\ UNCHANGED <<created, parked, mtx, qu>>
+
+(* pool.resume(prom[k]()): every handle of the suspend point is popped (LAST first) and handed to the
+   pool as a closure calling coro_queue::resume(h) (thread_pool.h:204-213); nothing runs here *)
+NatPoolResume(k) ==
+    /\ NatDo(<<"pr", k>>, <<>>, PromPT(k) \o HTasks(Rev(PromH(k))), PromX(k) \o PromH(k))
     /\ fut' = PromFut(k)
     /\ UNCHANGED <<created, parked, mtx, qu>>
 
 NatUnpark ==
-    /\ NatDo(<<"up", 0>>, IF parked = <<>> THEN <<>> ELSE <<Head(parked)>>)
+    /\ NatDo(<<"up", 0>>, IF parked = <<>> THEN <<>> ELSE <<Head(parked)>>, <<>>, <<>>)
     /\ parked' = IF parked = <<>> THEN <<>> ELSE Tail(parked)
     /\ UNCHANGED <<created, fut, mtx, qu>>
 
 NatQPush ==
-    /\ NatDo(<<"qd", 0>>, QH)
+    /\ NatDo(<<"qd", 0>>, QH, <<>>, <<>>)
     /\ qu' = QPushed
     /\ UNCHANGED <<created, fut, parked, mtx>>
 
+(* The pool's worker (thread_pool::worker, thread_pool.h:52-66) takes the next closure.  It is an
+   ordinary thread, NOT in coroutine mode: coro_queue::resume(h) / the discarded suspend point of
+   fn.start(promise) install the worker thread's own ready queue, resume the coroutine and drain the
+   queue before the closure returns (coro_queue.h:135-137, suspend_point.h:136-142): whatever thread
+   a coroutine runs on, it runs in coroutine mode. *)
+PoolCoro ==
+    /\ stack = <<>> /\ nat = "pool" /\ ptasks # <<>> /\ Head(ptasks) # Obs
+    /\ LET c == Head(ptasks)[2]
+       IN Resume(c, <<Frame("iq", 0, <<>>, FALSE), Frame("co", c, <<>>, FALSE)>>, st, pc, mid, ev, queue, 3)
+    /\ inst' = TRUE /\ thr' = 1 /\ ptasks' = Tail(ptasks)
+    /\ UNCHANGED <<script, bind, created, fut, parked, mtx, qu, nph, disc, enqs, ndeq, nrd, nat, acc, wcase>>
+
+(* the harness' observation closure, run by the worker between the library's closures; if closures
+   are still queued behind it, it is queued again *)
+PoolObs ==
+    /\ stack = <<>> /\ nat = "pool" /\ ptasks # <<>> /\ Head(ptasks) = Obs
+    /\ ev' = Append(ev, <<0, pc[0] + 1, "w", queue, B(inst) + 2>>)
+    /\ ptasks' = IF Tail(ptasks) = <<>> THEN <<>> ELSE Append(Tail(ptasks), Obs)
+    /\ thr' = 1
+    /\ UNCHANGED <<script, pc, st, mid, bind, created, stack, inst, queue, fut, parked, mtx, qu, nph,
+                   disc, enqs, ndeq, nrd, nrs, nat, acc, wcase>>
+
+(* the pool is dry: the native thread's call is over *)
+PoolEnd ==
+    /\ stack = <<>> /\ nat = "pool" /\ ptasks = <<>>
+    /\ ev' = Append(ev, <<0, pc[0] + 1, "e", queue, B(inst)>>)
+    /\ pc' = [pc EXCEPT ![0] = @ + 1]
+    /\ nat' = "idle" /\ thr' = 0
+    /\ UNCHANGED <<script, st, mid, bind, created, stack, inst, queue, fut, parked, mtx, qu, nph,
+                   disc, enqs, ndeq, nrd, nrs, ptasks, acc, wcase>>
+
 NatEnd ==
-    /\ stack = <<>> /\ nph = "run" /\ created >= 1
+    /\ NatIdle /\ nph = "run" /\ created >= 1
     /\ nph' = "clean"
     /\ UNCHANGED <<script, pc, st, mid, bind, created, stack, inst, queue, fut, parked, mtx, qu,
                    ev, disc, enqs, ndeq, nrd, nrs>>
+    /\ UNCHANGED ext
 
 NatDone ==
-    /\ stack = <<>> /\ nph = "clean" /\ CleanStep = <<"re", 0>>
+    /\ NatIdle /\ nph = "clean" /\ CleanStep = <<"re", 0>>
     /\ nph' = "done"
     /\ UNCHANGED <<script, pc, st, mid, bind, created, stack, inst, queue, fut, parked, mtx, qu,
                    ev, disc, enqs, ndeq, nrd, nrs>>
+    /\ UNCHANGED ext
 
 Next ==
-    \/ NatSpawn \/ (\E k \in 1..K : NatResolve(k)) \/ NatUnpark \/ NatQPush \/ NatEnd \/ NatDone
-    \/ IqNext \/ Flush \/ IqExit
+    \/ NatSpawn \/ (\E k \in 1..K : NatResolve(k) \/ NatPoolResume(k)) \/ NatUnpark \/ NatQPush \/ NatEnd \/ NatDone
+    \/ IqNext \/ Flush \/ IqExit \/ PoolCoro \/ PoolObs \/ PoolEnd
     \/ \E c \in Cor :
          \/ Pause(c) \/ Park(c) \/ Unpark(c) \/ Return(c)
          \/ SpawnDetachDiscard(c) \/ SpawnDetachAwait(c) \/ SpawnCoAwait(c)
          \/ StartNested(c) \/ StartReturn(c)
          \/ QPop(c) \/ QPushDiscard(c) \/ QPushAwait(c)
+         \/ PoolHop(c) \/ PoolRun(c) \/ HoldDetach(c) \/ HoldAwait(c) \/ HoldFlush(c)
          \/ \E k \in 1..K : \/ ResolveDiscard(c, k) \/ ResolveAwait(c, k) \/ AwaitFuture(c, k)
                             \/ SpawnBoundDiscard(c, k) \/ SpawnBoundAwait(c, k)
+                            \/ PoolResume(c, k) \/ PoolAwait(c, k)
+                            \/ HoldProm(c, "ha", k) \/ HoldProm(c, "hm", k)
          \/ \E m \in 1..M : Lock(c, m) \/ ReleaseDiscard(c, m) \/ ReleaseAwait(c, m)
 
 Spec == Init /\ [][Next]_vars
@@ -591,22 +819,26 @@ FIFOStep ==
    running in the order in which they sit there *)
 FirstAfter(n, x) == LET s == {j \in EvIdx : j > n /\ ev[j][1] = x}
                     IN IF s = {} THEN 0 ELSE CHOOSE j \in s : \A o \in s : j <= o
-ObservedOrder ==
+ObservedOrder ==      \* stated for neighbours in the deque; it is transitive
     \A n \in EvIdx :
       LET q == ev[n][4] IN
-      \A x, y \in 1..Len(q) :
-        x < y => LET fx == FirstAfter(n, q[x])
-                     fy == FirstAfter(n, q[y])
-                 IN fy # 0 => (fx # 0 /\ fx < fy)
+      \A x \in 1..(Len(q) - 1) :
+        LET fx == FirstAfter(n, q[x])
+            fy == FirstAfter(n, q[x + 1])
+        IN fy # 0 => (fx # 0 /\ fx < fy)
 
 (* each readying leads to exactly one resumption; a ready coroutine is held in exactly one place *)
+Held(c) == Cardinality({i \in 1..Len(ptasks) : ptasks[i] # Obs /\ ptasks[i][2] = c})
+           + Cardinality({x \in Cor : In(c, acc[x])})
 Occ(c) == Cardinality({i \in 1..Len(queue) : queue[i] = c})
           + (IF stack # <<>> THEN Cardinality({i \in 1..Len(stack[1].rest) : stack[1].rest[i] = c}) ELSE 0)
+          + Held(c)
 ResumeOncePerReadying ==
     \A c \in Cor :
       /\ nrs[c] <= nrd[c] /\ nrd[c] <= nrs[c] + 1
       /\ (nrd[c] = nrs[c] + 1) <=> (st[c] = "ready")
       /\ Occ(c) = (IF st[c] = "ready" THEN 1 ELSE 0)
+      /\ \A i, j \in 1..Len(acc[c]) : i # j => acc[c][i] # acc[c][j]
 
 (* no coroutine is resumed while it runs / after it finished; never twice on the stack *)
 NoReentrancy ==
@@ -628,11 +860,24 @@ RoundRobin ==
 (* when the outermost activation returns to native code nothing is left queued and coroutine mode
    is off; native code observes the same *)
 FullDrain ==
-    /\ stack = <<>> => (queue = <<>> /\ ~inst /\ \A c \in Cor : st[c] # "ready")
-    /\ \A n \in EvIdx : ev[n][1] = 0 => (ev[n][4] = <<>> /\ ev[n][5] = 0)
+    \* (a ready coroutine may still sit in a closure handed to the thread pool or in a suspend point
+    \* VARIABLE its holder has neither awaited nor destroyed yet: that is the holder's decision)
+    /\ stack = <<>> => (queue = <<>> /\ ~inst /\ \A c \in Cor : st[c] = "ready" => Held(c) = 1)
+    \* native code, and the pool's worker between two closures, see an empty deque, coroutine mode off
+    /\ \A n \in EvIdx : ev[n][1] = 0 => (ev[n][4] = <<>> /\ ev[n][5] = (IF ev[n][3] = "w" THEN 2 ELSE 0))
 
 (* no ready coroutine left behind; (and, thanks to the clean-up phase and the choice guards, every
    created coroutine has finished: the generated programs are deadlock free) *)
-AllDoneAtEnd == nph = "done" => \A c \in Cor : st[c] \in {"new", "done"}
+AllDoneAtEnd == nph = "done" => (ptasks = <<>> /\ \A c \in Cor : st[c] \in {"new", "done"} /\ acc[c] = <<>>)
+
+(* every coroutine that was handed to the pool continues ON the worker, in coroutine mode *)
+OnWorkerInCoroMode == \A n \in EvIdx : ev[n][1] # 0 => ev[n][5] \in {1, 3}
+
+(* The history properties are safety properties of the growing history: once violated they stay
+   violated, and every behaviour ends in a state with nph = "done".  For the long histories of
+   Plan = "wide" they are therefore evaluated on the complete history only. *)
+EndRunToSuspension == nph = "done" => RunToSuspension
+EndObservedOrder == nph = "done" => ObservedOrder
+EndRoundRobin == nph = "done" => RoundRobin
 
 =============================================================================
